@@ -24,6 +24,12 @@
 #error "define VF_FAM_BACK, VF_FAM_BACK11 or VF_FAM_MP11"
 #endif
 
+// capacity of the circular-buffer queues of configuration bq: "sufficiently large" by default (C13); C20 also drives a
+// deliberately small one (-DVF_QCAP=2..3), where boost::circular_buffer overwrites its oldest element when full
+#ifndef VF_QCAP
+#define VF_QCAP 4096
+#endif
+
 namespace vf {
 
 // history descriptors used by the generated front-ends
@@ -75,13 +81,13 @@ struct Kit {
     template <class SM, class S> static int state_id() { return bsm::get_state_id<typename SM::stt, S>::value; }
     template <class SM> static void prepare(SM& m) {
 #if defined(VF_CFG_bq)
-        m.get_message_queue().set_capacity(4096);
+        m.get_message_queue().set_capacity(VF_QCAP);
 #endif
         (void)m;
     }
     template <class SM> static void prepare_defq(SM& m) {
 #if defined(VF_CFG_bq)
-        m.get_deferred_queue().set_capacity(4096);
+        m.get_deferred_queue().set_capacity(VF_QCAP);
 #endif
         (void)m;
     }
